@@ -57,7 +57,8 @@ bounded by the overflow test). -/
 def decimalsFrom : Nat → Int → List Rat → Rat → Option Int
   | 0, _, _, _ => none
   | fuel + 1, d, xs, tol =>
-    if ¬ (maxAbs xs * pow10 d < 2147483647) then none
+    if 18 < d then none          -- the factor 10^d must fit a 64-bit integer to be written (fix 575ec004)
+    else if ¬ (maxAbs xs * pow10 d < 2147483647) then none
     else if xs.all (fun x => decide (absQ (roundDec d x - x) < tol * absQ x)) then some d
     else decimalsFrom fuel (d + 1) xs tol
 
